@@ -93,7 +93,8 @@ def l_params(entries, removed, emptied, isolation, codec=None, call=None):
 def _run_default(shard):
     """Worker: default-schedule execution of each (name, params); mirrors explore._explore_task's bookkeeping."""
     acc = Acc()
-    for name, params in shard:
+    for name, desc in shard:
+        params = l_params(*desc)  # built here: the parent only holds the compact descriptors
         res = explore.execute(scen_consumer.make, params, [], {})
         acc.count("evaluations")
         acc.count("transitions", res.transitions)
@@ -242,20 +243,21 @@ def run(ctx):
                     name = f"L/{log_name(entries, removed, emptied)}/{'rc' if isolation == 'read_committed' else 'ru'}"
                     if only and only not in name:
                         continue
-                    jobs.append((name, l_params(entries, removed, emptied, isolation)))
+                    jobs.append((name, (entries, removed, emptied, isolation)))
                     if len(entries) <= (3 if quick else 4) and not removed and not emptied:
-                        jobs.append((name + "/py", l_params(entries, removed, emptied, isolation, codec="py")))
+                        jobs.append((name + "/py", (entries, removed, emptied, isolation, "py")))
                     if len(entries) <= (3 if quick else 5):
                         # same walk polled with getone(): one record per call, position must still pass trailing markers /
                         # aborted / emptied batches of a response
-                        jobs.append((name + "/getone", l_params(entries, removed, emptied, isolation, call="getone")))
+                        jobs.append((name + "/getone", (entries, removed, emptied, isolation, None, "getone")))
         ctx.log(f"L: {len(jobs)} consumer runs")
         size = max(1, min(40, len(jobs) // (ctx.jobs * 8) or 1))
         shards = [jobs[i:i + size] for i in range(0, len(jobs), size)]
         ctx.pmap(_run_default, shards)
         ctx.count("scenarios", len(jobs))
         if jobs:
-            ctx.sample({"scenario": jobs[-1][0], "isolation": jobs[-1][1]["isolation"], "combos": jobs[-1][1]["combos"][:6]})
+            last = l_params(*jobs[-1][1])
+            ctx.sample({"scenario": jobs[-1][0], "isolation": last["isolation"], "combos": last["combos"][:6]})
     # ---- D ---------------------------------------------------------------------------------------------------
     if not only or only.startswith("D"):
         dlogs = conslogs.enumerate_txn_logs(n_d)
@@ -269,7 +271,7 @@ def run(ctx):
         two = [e for e in conslogs.enumerate_txn_logs(n_e) if len({x[1] for x in e if x[0] != "p"}) >= 2]
         scs = [s for s in e_scenarios(ctx, two) if not only or only in s[0]]
         ctx.log(f"E: {len(scs)} explored scenarios on {len(two)} multi-producer logs")
-        counts = explore.explore_many(ctx, [(name, scen_consumer.make, params, bounds) for name, params, bounds in scs])
+        counts = scen_consumer.explore_chunked(ctx, [(name, scen_consumer.make, params, bounds) for name, params, bounds in scs])
         ctx.note("executions_E", sum(counts.values()))
         for k in [k for k in ctx.counts if k.startswith("exec:")]:
             del ctx.counts[k]
